@@ -82,7 +82,12 @@ theorem relExpr_oof_mono : ∀ (e : Expr) (b : Nat) (a : Aux), a.oof = true → 
     | no =>
       have hl := relExpr_oof_mono l b a h
       cases op <;> simp only <;> exact relExpr_oof_mono r _ _ hl
-  | .cmp _ _, b, a, h => by unfold relExpr; cases asConst (.cmp _ _) <;> simp [h]
+  | .cmp x ops, b, a, h => by
+    unfold relExpr
+    cases asConst (.cmp x ops) with
+    | val v => simp [h]
+    | oof => simp
+    | no => simp only; exact relChain_oof_mono ops _ _ _ (relExpr_oof_mono x b a h)
   | .ife c t none, b, a, h => by
     unfold relExpr
     cases asConst (.ife c t none) with
@@ -120,6 +125,12 @@ theorem relExpr_oof_mono : ∀ (e : Expr) (b : Nat) (a : Aux), a.oof = true → 
     unfold relExpr; cases asConst (.list items) <;> simp [h, relList_oof_mono items b a h]
   | .map kvs, b, a, h => by
     unfold relExpr; cases asConst (.map kvs) <;> simp [h, relPairs_oof_mono kvs b a h]
+theorem relChain_oof_mono : ∀ (ops : List (CmpOp × Expr)) (b : Nat) (a : Aux) (cs : Nat), a.oof = true →
+    (relChain ops b a cs).2.oof = true
+  | [], b, a, cs, h => by simp [relChain, h]
+  | [(op, e)], b, a, cs, h => by simp [relChain, relExpr_oof_mono e b a h]
+  | (op, e) :: o2 :: rest, b, a, cs, h => by
+    simp only [relChain]; exact relChain_oof_mono (o2 :: rest) _ _ _ (relExpr_oof_mono e b a h)
 theorem relArgs_oof_mono : ∀ (args : List (Option String × Expr)) (b : Nat) (a : Aux), a.oof = true →
     (relArgs args b a).2.oof = true
   | [], b, a, h => by simp [relArgs, h]
